@@ -3,6 +3,7 @@ import Genq.Driver.Util
 import Genq.Model.Http
 import Genq.Model.HttpResp
 import Genq.Model.Names
+import Genq.Model.Main
 open Lean
 namespace Genq.Driver
 
@@ -104,12 +105,39 @@ def opNames (op : String) (j : Json) : Except String Json := do
     return Json.mkObj [("out", str r)]
   | _ => throw s!"unknown op {op}"
 
+def getFiles (j : Json) (k : String) : Except String (List (Nat × List Nat)) := do
+  (← getArr j k).toList.mapM fun e => do
+    let a ← e.getArr?
+    if h : a.size = 2 then
+      let p ← a[0].getNat?
+      let b ← unhexStr (← a[1].getStr?)
+      pure (p, b)
+    else throw "file entry"
+
+def opMain (op : String) (j : Json) : Except String Json := do
+  match op with
+  | "main.run" =>
+    let gen ← match j.getObjVal? "gen" with
+      | .ok .null => pure none
+      | .ok _ => do pure (some (← getFiles j "gen"))
+      | .error _ => pure none
+    let ec ← getBool j "explicitConfig"
+    let cf ← getBool j "cfgFails"
+    let env : Main.Env := ⟨ec, cf, gen, fun _ => false, fun _ => false⟩
+    let st := Main.run env (← getFiles j "fs")
+    let paths := ((← getFiles j "fs").map (·.1) ++ (gen.getD []).map (·.1)).eraseDups
+    let fsOut := paths.filterMap fun p => (Main.fsGet st.fs p).map fun b => Json.arr #[Json.num p, hexStr b]
+    let ret := match st.returned with | some true => "error" | some false => "nil" | none => "none"
+    return Json.mkObj [("returned", ret), ("stuck", st.stuck), ("fs", Json.arr fsOut.toArray)]
+  | _ => throw s!"unknown op {op}"
+
 def dispatch (j : Json) : Json :=
   let r : Except String Json := do
     let op ← getStr j "op"
     if op.startsWith "http." then opHttp op j
     else if op.startsWith "resp." then opResp op j
     else if op.startsWith "names." then opNames op j
+    else if op.startsWith "main." then opMain op j
     else throw s!"unknown op {op}"
   let idf := match j.getObjVal? "id" with | .ok v => [("id", v)] | .error _ => []
   match r with
